@@ -2,7 +2,7 @@
 
 `Fe` is an opaque type with an integer view fe_v(a) in [0, P()) for an UNINTERPRETED modulus P() > 1.  Its operator
 impls are external_body with the field-layer contract `view(a op b) == (view(a) op view(b)) mod p` - exactly what
-C09 proves for the three Montgomery fields (and what is assumed of Field255/fiat-crypto).  The operators are
+C09 proves for the three Montgomery fields (unit field_layer: add/sub/mul/neg/eq/zero/one/from under `x@ = val(x.0)`) and what is assumed of Field255/fiat-crypto.  The operators are
 declared through vstd's *SpecImpl traits, so extracted code keeps its `+ - * += -= *= == !=` tokens unchanged.
 Anything proved against `Fe` holds for every field meeting that contract."""
 
